@@ -415,8 +415,7 @@ func c12Builders(c *Ctx, prog *load.Program) {
 	// SubjectPublicKeyInfo
 	{
 		r := RunFn(prog, set, models.SececPkg+".buildASN1PublicKey", &RunOpts{Args: named("k"), Pre: func(ex *absint.Exec, st *absint.State, args []absint.Val) {
-			enc := symBytes("*k.pointBytes")
-			sym.SetBytesLen(enc, 65)
+			enc := absint.SymBytes("*k.pointBytes", 65, 0)
 			kp := args[0].(*absint.Ptr)
 			ib := FieldIndex(prog, models.SececPkg, "PublicKey", "pointBytes")
 			ex.StoreLeaf(st, ex.FieldPtr(kp, ib), ex.BytesToSlice(st, enc, "pointBytes"), 0)
@@ -428,7 +427,7 @@ func c12Builders(c *Ctx, prog *load.Program) {
 		} else {
 			got := sym.Canon(r.Ex.SliceBytes(r.Final(), r.Result(0)))
 			oid := func(s string) *sym.Term { return sym.App(sym.Bytes, "der_oid_enc", sym.ConstStr(sym.Any, s)) }
-			want := seq(seq(oid("1.2.840.10045.2.1"), oid("1.3.132.0.10")), sym.App(sym.Bytes, "der_bitstring", symBytes("*k.pointBytes")))
+			want := seq(seq(oid("1.2.840.10045.2.1"), oid("1.3.132.0.10")), sym.App(sym.Bytes, "der_bitstring", absint.SymBytes("*k.pointBytes", 65, 0)))
 			c.R.Decide(sym.Equal(got, want), "C12-4", key, pos, "SEQUENCE{SEQUENCE{ecPublicKey, secp256k1}, BIT STRING(uncompressed SEC 1 bytes)}", "builder output is "+got.String())
 		}
 	}
